@@ -96,6 +96,8 @@ type op =
   | Handle of int * int                                 (* engine, name: the caller keeps the *Template that Load returns *)
   | RenderAlias of int * int * (int * int) list         (* Render(alias) *)
   | RenderHandle of int * int * (int * int) list        (* Template.Render on the kept handle of (engine, name) *)
+  | LateStore of int * int * string * bool              (* engine, name (60 and up: names no modelled template mentions), text; a template
+                                                           that arrives later, in the engine's first loader or (true) in a loader registered now *)
 
 let junk_cell = { M.pcl_kind = n_of_int 77; pcl_payload = [ n_of_int 13 ]; pcl_children = [ nat_of_int 0; nat_of_int 1; nat_of_int 2 ] }
 let model_ops (o : op) : M.pool_op list =
@@ -107,6 +109,7 @@ let model_ops (o : op) : M.pool_op list =
   | Toggle e -> [ M.POToggleCache (nat_of_int e) ]
   | Gc -> [ M.POGC ]
   | Attr _ | Flood _ -> []                                (* attribute access on Go structs: outside the machine *)
+  | LateStore _ -> []                                     (* names outside the machine's templates: oracle only, rendered with RenderAlias *)
   | Alias _ | Handle _ | RenderAlias _ | RenderHandle _ -> []   (* second references to a held template: outside the machine, oracle only *)
   | Poison -> List.map (fun k -> M.POPoison (k, junk_cell)) [ M.pk_root; M.pk_text; M.pk_var; M.pk_block; M.pk_include; M.pk_call; M.pk_if; M.pk_macro ]
 
@@ -161,6 +164,7 @@ let emit_history oc (r : rng) ~(stream : string) ~(engines : int) (store : ((int
       | Flood n -> [ "op", JS "flood"; "cnt", JI n ]
       | Alias (e, n, a) -> parse_since_render := true; [ "op", JS "alias"; "e", JI e; "n", JI n; "tpl", JI a ]
       | Handle (e, n) -> [ "op", JS "handle"; "e", JI e; "n", JI n ]
+      | LateStore (e, n, txt, fresh) -> [ "op", JS "store"; "e", JI e; "n", JI n; "src", JS (hex txt); "ptr", JB fresh ]
       | RenderAlias (e, a, vars) -> nt := true;
           [ "op", JS "renderalias"; "e", JI e; "n", JI a; "vars", JL (List.map (fun (x, v) -> JL [ JI x; JI v ]) vars); "exp", JS "unmodelled:alias" ]
       | RenderHandle (e, n, vars) -> nt := true;
@@ -252,7 +256,16 @@ let gen_history (r : rng) ~(maxlen : int) =
         (* a second reference to a held template: an alias, or a handle the caller keeps; later the name is registered
            again and the old template must go on rendering as before *)
         let n = wpick r [ 3, 0; 2, 2; 1, 3 ] in
-        (match rint r 4 with
+        (match rint r 7 with
+         | 4 ->
+             (* t60 is a leaf, t61 includes t60, t62 includes both: no cycles *)
+             let k = rint r 3 in
+             let txt = match k with
+               | 0 -> pick r [| "L{{ v1 }}"; "l"; "L{{ v2 }}{{ v1 }}" |]
+               | 1 -> pick r [| "M{{ v2 }}{% include 't60' ignore missing %}"; "m{% include 't60' %}" |]
+               | _ -> "{% include 't60' ignore missing %}+{% include 't61' ignore missing %}" in
+             push (LateStore (0, 60 + k, txt, rbool r))
+         | 5 | 6 -> push (RenderAlias (0, 60 + rint r 3, gen_vars r))
          | 0 -> push (Alias (0, n, 50 + n))
          | 1 -> push (Handle (0, n))
          | 2 -> push (RenderAlias (0, 50 + wpick r [ 3, 0; 2, 2; 1, 3 ], gen_vars r))
@@ -318,6 +331,14 @@ let fixed (r : rng) =
        other sources are parsed, and the old template must still render as it did *)
     (1, [], [ reg 0 0 a; Alias (0, 0, 50); Handle (0, 0); RenderAlias (0, 50, []); reg 0 0 b; RenderAlias (0, 50, []); RenderHandle (0, 0, []); Render (0, 0, []);
               Parse (0, base, print_src r base); reg 0 1 base; RenderAlias (0, 50, []); RenderHandle (0, 0, []); Gc; Poison; RenderAlias (0, 50, []); RenderHandle (0, 0, []) ]);
+    (* a name nobody has yet: a render of it fails, a page that includes it optionally renders without it; then the
+       template arrives through a loader and both must see it (as an engine created now would) *)
+    (1, [], [ LateStore (0, 61, "P;{% include 't60' ignore missing %};Q{{ v1 }}", false); RenderAlias (0, 60, [ (1, 5) ]); RenderAlias (0, 61, [ (1, 5) ]);
+              RenderAlias (0, 61, [ (1, 6) ]); LateStore (0, 60, "L{{ v1 }}", false); RenderAlias (0, 61, [ (1, 5) ]); RenderAlias (0, 60, [ (1, 7) ]) ]);
+    (1, [], [ reg 0 0 a; Render (0, 0, []); RenderAlias (0, 62, []); RenderAlias (0, 62, []); LateStore (0, 62, "late{{ v2 }}", true); RenderAlias (0, 62, [ (2, 4) ]);
+              Render (0, 0, []); LateStore (0, 63, "{% include 't64' %}", true); RenderAlias (0, 63, []); LateStore (0, 64, "inner", false); RenderAlias (0, 63, []) ]);
+    (2, [], [ RenderAlias (0, 60, []); RenderAlias (1, 60, []); LateStore (1, 60, "one", false); RenderAlias (0, 60, []); RenderAlias (1, 60, []);
+              LateStore (0, 60, "zero", true); RenderAlias (0, 60, []); RenderAlias (1, 60, []) ]);
     (* a missing include fails the render; the template renders the same afterwards on a good and a bad name *)
     (1, [], [ reg 0 0 (s [ text 1; incl 9 false ]); reg 0 1 (s [ text 2; incl 9 true; text 3 ]); Render (0, 0, []); Render (0, 1, []);
               Render (0, 0, []); Render (0, 1, []) ]) ]
